@@ -129,7 +129,7 @@ func newScriptEnv(c *lib.Ctx, fl flavour) *scriptEnv {
 		e.nss = append(e.nss, string(big))
 	}
 	e.eks = lib.KeyUniverse(r, 5, 2)
-	e.keyGroups = lib.Pick(r, []int{1, 7, 64, 256, 256, 1000})
+	e.keyGroups = lib.Pick(r, []int{1, 2, 4, 7, 64, 256, 256, 1000}) // small even counts: few keys are enough to populate the last key group
 	if c.Index%25 == 24 {
 		e.keyGroups = 65535 // deploy scans every key group's timers: slow, so only now and then
 	}
@@ -522,6 +522,22 @@ func fmtShadow(m map[string]ophar.KeyShadow) string {
 // stepRedeploy: the operator dies and a fresh one (same or new id) is deployed from the last acknowledged checkpoint.
 func (e *scriptEnv) stepRedeploy() {
 	if e.lastAck == nil {
+		return
+	}
+	// An idle operator (nothing batched, nobody parked in alignment, no background task) may also be deployed
+	// again IN PLACE: the job does that with a member that stays registered while another member is replaced.
+	// (With a pending batch or an in-flight checkpoint the known finding in-place-redeploy applies.)
+	if len(e.model.Pending) == 0 && len(e.blocked) == 0 && os.Getenv("VERIF_INPLACE") != "" && e.r.Intn(3) == 0 {
+		lib.DKVIdle(ophar.Watchdog)
+		e.redeploys++
+		e.logOp("redeploy IN PLACE from checkpoint %d as %s (the same operator object receives HandleDeploy again)", e.lastAck.CheckpointID, e.opID)
+		e.h.ResetShadow(e.cutShadow)
+		e.model.Restart(e.senders, e.cutTimers)
+		if err := e.node.Deploy([]string{e.opID}, e.senders, e.keyGroups, e.location, []*snapshotpb.OperatorCheckpoint{{CheckpointId: e.lastAck.CheckpointID, OperatorId: e.lastAck.OperatorID, DkvFileUri: e.lastAck.URI,
+			KeyGroupRange: &snapshotpb.KeyGroupRange{Start: int32(e.lastAck.Start), End: int32(e.lastAck.End)}}}); err != nil {
+			e.c.Fail("deploy-error", e.wit(), "HandleDeploy (in place): %v", err)
+		}
+		e.c.Feat("redeploys_in_place", 1)
 		return
 	}
 	old := e.node
